@@ -216,6 +216,8 @@ def cases(rng, tier):
     for c in out:
         if rng.random() < 0.2:
             c['layout'] = rng.randrange(1, 4)
+        if c['sectors'] and c['L'] >= 1 and rng.random() < 0.15:
+            c['zeroq'] = rng.choice(['chi', 'psi'])
     out.append(make_case(rng, 0, 2, 'complex', False, False, False, kind='L0'))
     c = make_case(rng, 2, 2, 'complex', False, False, False, kind='mismatch')
     out.append(c)
@@ -236,6 +238,9 @@ def _build(case):
     chi = MPS(qd, qD['chi'], fill='postpone'); chi.A = [dec(a, dto['chi']) for a in T['chi']]
     op = MPO(qd, qD['op'], fill='postpone'); op.A = [dec(a, dto['op']) for a in T['op']]
     rho = MPO(qd, qD['rho'], fill='postpone'); rho.A = [dec(a, dto['rho']) for a in T['rho']]
+    if case.get('zeroq'):
+        # quantum numbers switched off on one of the two states only: the dense meaning of every quantity is unchanged
+        (chi if case['zeroq'] == 'chi' else psi).zero_qnumbers()
     if case.get('layout'):
         # tensors in other memory layouts (Fortran order, non-contiguous views, negative strides): same values
         import gen as G
